@@ -639,7 +639,7 @@ func run(r *enumx.Run, replay *enumx.ReplayCase) {
 		}
 		return
 	}
-	r.Rule("each evaluation gives one mutated document (or one faulty source) to kit's Decrypt and reads the stream to its end; oracle: the bytes read before the first error are a prefix of the original plaintext, and the stream ends in a non-EOF error unless they are the whole plaintext; a source fault always ends in an error. Documents: reference-built, 2 ciphers x plaintext lengths {0,1,40,65536,65537,131077}. Single mutations: every bit of every byte (3 small documents) / every bit of the first, last-content and line-feed byte of each header line and of the first and last byte of each segment body and tag (large); truncation to every length (small) / within +-17 of every header-line and segment end (large); extension by 1,16,17,65552 bytes (zeros, copy of the tail); segment delete/duplicate/swap/move-last-forward/append; splice of every segment of donor documents (same key+prefix, same key other prefix, other key; all six lengths) over every segment; unwrap returning a wrong 32-byte key, a 16-byte key, nothing, an error; forged all-zero-key documents with stale or recomputed MAC. Compound: all ordered pairs over {boundary truncations, bit-flip classes, segment operations} on the two-segment document, the second mutation taken from the alphabet of the already mutated bytes. Faults: sticky non-EOF source error at every Read index (quick: large documents under 1-byte chunking only within +-17 of every boundary), with and without data on the failing call, under default and 1-byte chunking. A case is trivial when the mutation leaves the bytes unchanged.")
+	r.Rule("each evaluation gives one mutated document (or one faulty source) to kit's Decrypt and reads the stream to its end; oracle: the bytes read before the first error are a prefix of the original plaintext, and the stream ends in a non-EOF error unless they are the whole plaintext; a source fault always ends in an error. Documents: reference-built, 2 ciphers x plaintext lengths {0,1,40,65536,65537,131077}. Single mutations: every bit of every byte (3 small documents) / every bit of the first, last-content and line-feed byte of each header line and of the first and last byte of each segment body and tag (large); truncation to every length (small) / within +-17 of every header-line and segment end (large); extension by 1,16,17,65552 bytes (zeros, copy of the tail); segment delete/duplicate/swap/move-last-forward/append; splice of every segment of donor documents (same key+prefix, same key other prefix, other key; all six lengths) over every segment; unwrap returning a wrong 32-byte key, a 16-byte key, nothing, an error; forged all-zero-key documents with stale or recomputed MAC. Compound: all ordered pairs over {boundary truncations, bit-flip classes, segment operations} on the two-segment document, the second mutation taken from the alphabet of the already mutated bytes. Faults: sticky non-EOF source error at every Read index, with and without data on the failing call, under default and 1-byte chunking (1-byte chunking on the large documents: quick takes the indexes within +-17 of every header-line, tag and segment boundary; thorough takes every index up to the two-segment document and the boundary neighbourhoods plus every 16th index of the three-segment document). A case is trivial when the mutation leaves the bytes unchanged.")
 
 	t0 := time.Now()
 	lap := func(name string) {
@@ -781,8 +781,21 @@ func run(r *enumx.Run, replay *enumx.ReplayCase) {
 			l := layoutOf(b.doc)
 			for _, chunk := range []int{0, 1} {
 				_, _, reads := decryptWithKit(&Case{Cipher: cph, Len: n, Chunk: chunk, FailAt: -1}, b.doc, b.wfk)
+				// Under 1-byte chunking a fault at Read index i costs i Reads, so
+				// the complete enumeration is quadratic in the document size:
+				// quick takes, for the large documents, the indexes within
+				// +-17 of every boundary; thorough takes every index for the
+				// documents up to two segments and, for the three-segment
+				// document, the boundary neighbourhoods plus every 16th index.
 				var idx []int
-				if chunk == 1 && n > 1000 && !r.Thorough() {
+				stride := 0
+				switch {
+				case chunk == 1 && n > 1000 && !r.Thorough():
+					stride = -1
+				case chunk == 1 && n > 70000:
+					stride = 16
+				}
+				if stride != 0 {
 					seen := map[int]bool{}
 					bs := append([]int{0}, l.lineEnds...)
 					for _, s := range l.segs {
@@ -794,6 +807,12 @@ func run(r *enumx.Run, replay *enumx.ReplayCase) {
 								seen[i] = true
 								idx = append(idx, i)
 							}
+						}
+					}
+					for i := 0; stride > 0 && i < reads; i += stride {
+						if !seen[i] {
+							seen[i] = true
+							idx = append(idx, i)
 						}
 					}
 					sort.Ints(idx)
@@ -830,7 +849,7 @@ func run(r *enumx.Run, replay *enumx.ReplayCase) {
 		items[i], items[j] = items[j], items[i]
 	}
 	runItems("source-faults", items, func() string {
-		return fmt.Sprintf("source faults: %d faulty runs (every Read index x {error alone, data+error}) over 12 documents x {default, 1-byte} chunking", faultCount)
+		return fmt.Sprintf("source faults: %d faulty runs (Read indexes as stated in the rule x {error alone, data+error}) over 12 documents x {default, 1-byte} chunking", faultCount)
 	})
 	r.Sample(&Case{Cipher: 1, Len: 65537, Chunk: 1, FailAt: 65750, FailDat: true})
 
